@@ -141,11 +141,38 @@ func (c *Client) handleAcceptVersion(msg protocol.Message) error {
 			msgAcceptVersion.Version,
 		)
 	}
+	// The peer may only accept a version that we proposed
+	proposedVersionData, ok := c.config.ProtocolVersionMap[msgAcceptVersion.Version]
+	if !ok {
+		return fmt.Errorf(
+			"peer accepted protocol version that was not proposed: %d",
+			msgAcceptVersion.Version,
+		)
+	}
+	// CBOR null/undefined decode into zero-valued version data without an
+	// error, but they are not version data of any version
+	if len(msgAcceptVersion.VersionData) == 1 &&
+		(msgAcceptVersion.VersionData[0] == 0xf6 ||
+			msgAcceptVersion.VersionData[0] == 0xf7) {
+		return fmt.Errorf(
+			"peer accepted protocol version %d with empty version data",
+			msgAcceptVersion.Version,
+		)
+	}
 	versionData, err := protoVersion.NewVersionDataFromCborFunc(
 		msgAcceptVersion.VersionData,
 	)
 	if err != nil {
 		return err
+	}
+	// ...and only for the network that we proposed it for
+	if versionData == nil ||
+		(proposedVersionData != nil &&
+			versionData.NetworkMagic() != proposedVersionData.NetworkMagic()) {
+		return fmt.Errorf(
+			"peer accepted protocol version %d with mismatched network magic",
+			msgAcceptVersion.Version,
+		)
 	}
 	return c.config.FinishedFunc(
 		c.callbackContext,
